@@ -15,7 +15,7 @@ RULE = (
     "[-50,50], U3 triples, Fock ladder/number/phase operators at cutoffs 1..24, displacement and "
     "squeezing with complex parameters |.|<=1.2 at cutoffs 1..40, beam splitters with eta in "
     "[-4pi,4pi] at cutoffs 1..5, and every type through Operation(...).operator after "
-    "compute_dimensions. Oracle: independent numpy/scipy definitions, algebraic identities and "
+    "compute_dimensions (with a second operation of the same type and other parameters constructed in between). Oracle: independent numpy/scipy definitions, algebraic identities and "
     "closed forms. A case is non-trivial when a continuous parameter is not within 1e-3 of a "
     "multiple of pi/2 (angles) or has both real and imaginary part > 1e-3 (complex); distinct = "
     "(kind, cutoff, parameters rounded to 1e-6)."
@@ -113,6 +113,8 @@ def _pol_matrix(gate, via, **kw):
               "RX": ops.rx_operator, "RY": ops.ry_operator, "RZ": ops.rz_operator, "U3": ops.u3_operator}[gate]
         return np.asarray(libcall(fn, **kw))
     op = libcall(Operation, getattr(PolarizationOperationType, gate), **kw)
+    if kw:
+        libcall(Operation, getattr(PolarizationOperationType, gate), **{k_: v_ * 0.5 + 0.3 for k_, v_ in kw.items()})
     libcall(op.compute_dimensions, 0, np.array([0]))
     return np.asarray(libcall(lambda: op.operator))
 
@@ -315,6 +317,10 @@ def _run(case):
         if typ == "Squeeze":
             kw["zeta"] = complex(*case["param"])
         op = libcall(Operation, getattr(FockOperationType, typ), **kw)
+        # another operation of the same type with other parameters, constructed later, must not leak into this one
+        kw2 = {k_: (v_ * 0.5 + 0.3 if not isinstance(v_, complex) else v_ * (0.5 - 0.25j) + 0.1) for k_, v_ in kw.items()}
+        if kw2:
+            libcall(Operation, getattr(FockOperationType, typ), **kw2)
         libcall(op.compute_dimensions, nq, jnp.array(psi))
         d = op.dimensions[0]
         m = np.asarray(libcall(lambda: op.operator))
